@@ -386,7 +386,8 @@ def main(chk, replay=None):
         # afterwards: whether that call is in the store beforehand or not, it is refused beneath the prevented call and recorded nowhere there
         dict(fns={1: leaf(), 2: dict(explicit=False, stmts=[["call", 1, 0, "i", False, False, True, False, Z]], const=2, **{"raise": [0, 0, 0, 0]}),
                   3: dict(explicit=False, stmts=[["call", 2, 0, "i", False, True, True, False, Z], ["call", 1, 0, "i", False, False, False, False, Z],
-                                                 ["batch", 2, [0, 1], "i", False, True, True, False, Z]], const=3, **{"raise": [0, 0, 0, 0]})}),
+                                                 ["batch", 2, [0, 1], "i", False, True, True, False, Z]], const=3, **{"raise": [0, 0, 0, 0]})},
+             pre_only=[1]),
     ]
     concurrent_subcall(chk)
     for fl in (mutable_args_scenario(chk) + typed_args_scenario(chk) + lost_result_scenario(chk))[:3]:
@@ -414,6 +415,10 @@ def main(chk, replay=None):
         also = [k for k in dict.fromkeys(tr0) if k != root][:6]
         cold, mcold, tr = record_for(prog, backend, [], root, False, proof_ok, chk.tmpdir(), also)
         subs = [k for k in dict.fromkeys(tr) if k != root]
+        if prog.get("pre_only"):
+            # (a call computed with further calls prevented is memoized with what it could do then — prevention is not part of a
+            #  call's identity; memoizing such a call beforehand, without prevention, is another history, not another store)
+            subs = [k for k in subs if k[0] in prog["pre_only"]]
         if proof_ok and mcold != cold:
             chk.correspondence_break("provenance-record", dict(program=prog, root=root, backend=backend, real=cold, model=mcold))
         if cold.split(" || ")[0] == "none":
